@@ -29,7 +29,9 @@ fn fnv(s: &[u8]) -> u64 {
 	h
 }
 fn shorten(s: String) -> String {
-	if s.len() > 96 && std::env::var("WJ_LONG").is_err() { format!("{}..#{:x}+{}", &s[..48], fnv(s.as_bytes()), s.len()) } else { s }
+	// a caught panic inside a long row must stay visible to C02's failure predicate
+	let mark = if s.contains("!panic:") { "!panic:inside" } else { "" };
+	if s.len() > 96 && std::env::var("WJ_LONG").is_err() { format!("{}..#{:x}+{}{}", &s[..48], fnv(s.as_bytes()), s.len(), mark) } else { s }
 }
 fn clean(s: &str) -> String {
 	s.chars().map(|c| if c == ' ' || c == '~' || c == '\n' || c == '\r' || c == '\t' { '_' } else { c }).collect()
@@ -705,6 +707,36 @@ fn gen_demo(rng: &mut Rng) -> String {
 					if n > 0 { pokes.push((o + 28 * rng.below(n as u64) as usize + 16, (*rng.pick(&[0u32, 3, 4, 8, 12, 13, 16, 40])).to_le_bytes().to_vec())); }
 				},
 			}
+		}
+	}
+	// third audit (F6b): the CodeView NB10 (Cv20) arm of the serializer and every key of the stringify tables (Machine,
+	// Subsystem, debug entry type, incl. one value outside each table) - never produced by the pokes above
+	if rng.chance(1, 6) {
+		let dbg = { let (va, sz) = (r32(&b, dd + 48), r32(&b, dd + 52)); if va != 0 { to_off(va).map(|o| (o, sz as usize / 28)) } else { None } };
+		match rng.below(4) {
+			0 | 1 => if let Some((o, n)) = dbg {
+				for k in 0..n.min(8) {
+					let e = o + 28 * k;
+					if e + 28 > b.len() || r32(&b, e + 12) != 2 { continue; }
+					let p2 = if view { r32(&b, e + 20) as usize } else { r32(&b, e + 24) as usize };
+					if p2 != 0 && p2 + 64 < b.len() {
+						// NB10: signature, Offset, TimeDateStamp, Age, then the path (a short ASCII name, nul terminated)
+						let mut rec = b"NB10".to_vec();
+						for _ in 0..3 { rec.extend(&(rng.next() as u32).to_le_bytes()); }
+						if rng.chance(2, 3) { rec.extend(*rng.pick(&[&b"a.pdb\0"[..], b"C:\\x\\y.pdb\0", b"\0", b"\xc3\xa9.pdb\0", b"q\"uote.pdb\0"])); }
+						pokes.push((p2, rec));
+					}
+				}
+			},
+			2 => {
+				// FileHeader.Machine: every key of the table and one unknown value
+				pokes.push((e + 4, (*rng.pick(&[0x14cu16, 0x8664, 0x200, 0x1c0, 0])).to_le_bytes().to_vec()));
+			},
+			_ => {
+				// OptionalHeader.Subsystem (offset 68 in both formats): 0..=16 covers the table and its gaps
+				pokes.push((e + 24 + 68, (rng.below(18) as u16).to_le_bytes().to_vec()));
+				if let Some((o, n)) = dbg { if n > 0 { pokes.push((o + 28 * rng.below(n as u64) as usize + 12, (rng.below(19) as u32).to_le_bytes().to_vec())); } }
+			},
 		}
 	}
 	// targeted shapes (one case in five): table combinations the random field pokes almost never produce
